@@ -270,6 +270,13 @@ def make_immutable(tree: typing.List[typing.Any], outer: str, param: int):
             y = [1, 2] + x
         elif outer == "uni":
             y = x | other
+        elif outer == "iadd":
+            y = x  # an alias: augmented assignment must rebind the name, never rewrite the object both names refer to
+            y += other
+            y += 8
+        elif outer == "ior":
+            y = x
+            y |= other
         else:
             y = {5} | x
         _ = y.min, y.max, [v for v in (y % 5)], [v for v in y]
@@ -501,7 +508,8 @@ def _conditions(tier: str, seed: int) -> typing.List[Cond]:
         out.append(Cond(PROP, "c01.memo", make_memo, {"tree": t, "d1": 8, "d2": 3}, sig, kind="choice",
                         assumptions=["order in 0..119 (all permutations of 5 queries)", "leaf_i = 3*a0 + 5*i, a0 in 0..1 (other leaf arguments unused)"],
                         witness=w, budget=240.0))
-    for outer, param in [("pad", 8), ("rep", 2), ("rng", 2), ("cat", 0), ("rcat", 0), ("uni", 0), ("runi", 0)]:
+    for outer, param in [("pad", 8), ("rep", 2), ("rng", 2), ("cat", 0), ("rcat", 0), ("uni", 0), ("runi", 0), ("iadd", 0),
+                         ("ior", 0)]:
         t = ["pad", 4, L2] if outer != "pad" else ["rng", 2, L2]
         out.append(Cond(PROP, "c01.immutable", make_immutable, {"tree": t, "outer": outer, "param": param}, _sig(2),
                         kind="choice", assumptions=["leaves in 0..9"], witness=_wit(2), budget=150.0))
